@@ -39,7 +39,7 @@ var c11OpKinds = []string{"create", "update", "update-att", "update-dropatt", "d
 type c11Plan struct {
 	Cfg    verifsim.Config `json:"cfg"`
 	Op     string          `json:"op"`
-	Prior  int             `json:"prior"` // 0: d1 live with attachment and grants; 1: d1 conflicted; 2: d1 tombstoned
+	Prior  int             `json:"prior"`  // 0: d1 live with attachment and grants; 1: d1 conflicted; 2: d1 tombstoned
 	Faults [][2]any        `json:"faults"` // [[kv index, alt], ...]
 	Dry    bool            `json:"dry,omitempty"`
 }
@@ -344,7 +344,7 @@ func c11Run(env *verifsim.Env, raw json.RawMessage) *verifsim.Violation {
 	var opErr error
 	var newSession string
 	expectNew := func(post c11Snap) string { return "" } // returns "" when post satisfies the success predicate
-	accessStrict := true                                  // when false, the predicates ignore derived principal access
+	accessStrict := true                                 // when false, the predicates ignore derived principal access
 	has := func(s, sub string) bool { return strings.Contains(s, sub) }
 	ext := simstore.Wrap(simstore.NewNode(s, "ext"), w.bucket).DefaultDataStore(context.Background())
 	req := s.Spawn("req", "n1", func(t *verifsim.Task) {
